@@ -250,11 +250,22 @@ func (p *parser) parseQuant() (Expr, error) {
 			break
 		}
 		t := p.next()
+		typ := t.text
+		if t.kind == "op" && t.text == "*" {
+			// pointer-typed variable: ranges over all references, read as pointers to that struct type
+			t = p.next()
+			typ = "*" + t.text
+			if p.isOp(".") {
+				p.next()
+				t2 := p.next()
+				typ += "." + t2.text
+			}
+		}
 		if t.kind != "id" {
 			return nil, fmt.Errorf("quantifier: expected type in %q", p.src)
 		}
 		for _, n := range names {
-			vars = append(vars, QVar{n, t.text})
+			vars = append(vars, QVar{n, typ})
 		}
 		if p.isOp(";") {
 			p.next()
